@@ -196,11 +196,11 @@ def plan(tier, seed):
           'many-terminals': 9}
     slices = []
     for cfg, k in Ks.items():
-        Lc = (3 if k >= 11 else 4) if quick else (4 if k >= 11 else 5)
+        Lc = (2 if k >= 11 else 3) if quick else (3 if k >= 11 else 4)
         n = sum(k ** i for i in range(Lc + 1)) * 3 * (2 if cfg == 'multi-start' else 1)
-        pins = [None] if n * 0.035 < (100 if quick else 1500) else list(range(k))
+        pins = [None] if n * 0.045 < (100 if quick else 1500) else list(range(k))
         for pin in pins:
-            est = (n if pin is None else n / k) * 0.035
+            est = (n if pin is None else n / k) * 0.045
             slices.append({'id': '%s:L%d%s' % (cfg, Lc, '' if pin is None else ':pin%d' % pin), 'mode': 'realised', 'params': {'cfg': cfg, 'L': Lc, 'pin': pin},
                            'timeout': int(est * 3 + 60), 'twin': pin in (None, k - 1), 'bound': {'chars_or_lexemes': Lc, 'classes': k, 'apis': APIS}})
     meta = {
@@ -208,7 +208,7 @@ def plan(tier, seed):
         'technique': 'CrossHair solver-closed enumeration of inputs and API choices (realised: re and pickle are C extensions); four independently obtained parsers compared structurally',
         'functions_encoded': ['lark.lark.Lark.save/load/_load', 'lark.utils.Serialize/SerializeMemoizer', 'ParseTableBase.serialize/deserialize', 'IntParseTable',
                               '_deserialize_parsing_frontend', 'lark.tools.standalone.gen_standalone/extract_sections', 'Lark cache path', 'ParsingFrontend.parse/parse_interactive/scan'],
-        'bounds': {'configurations': list(Ks), 'length': '3-4 (quick) / 4-5 (thorough) characters or lexemes'},
+        'bounds': {'configurations': list(Ks), 'length': '2-3 (quick) / 3-4 (thorough) characters or lexemes'},
         'outside_bounds': ['longer inputs', 'option combinations outside the configuration list', 'transformer / postlex options'],
         'stubs_and_assumes': ['the stand-alone module is executed in-process in a fresh namespace'],
     }
